@@ -1,0 +1,7 @@
+//go:build !verif
+// +build !verif
+
+package wait
+
+// verifPoint is an empty stub without the build tag `verif`.
+func verifPoint(name string) {}
